@@ -25,7 +25,7 @@ ASSUME = ["reference-ellipsoid constants (a, e) and Earth spin rate are shared w
 SHARDS = {"quick": 4, "thorough": 16}
 BUDGET_S = {"quick": 90, "thorough": 1200}
 DECIDING = ["eci_ecef_roundtrip", "rigid", "lla_roundtrip", "lla_vs_ellipsoid", "sez_roundtrip", "sez_basis", "razel_radec",
-            "rsw_ntw", "rotation_continuity", "rotation_axis", "time_zone_independent", "leap_second_jump", "rot_identities", "skew", "day_of_year"]
+            "rsw_ntw", "rotation_continuity", "rotation_axis", "time_zone_independent", "leap_second_jump", "rot_identities", "skew", "day_of_year", "composites"]
 
 MANIFEST = {
     "technique": "runtime monitoring: inverse / rigidity / definition relations evaluated on the real conversion functions over boundary-biased dates and states; Earth-rotation continuity monitor across calendar boundaries and leap seconds",
@@ -186,6 +186,49 @@ def chk_sez(ctx, lat, lon, x):
         ctx.check(np.linalg.norm(s2 - s) <= 1e-9 * max(1, np.linalg.norm(s)), "razel-sez-inverse", f"razel2sez(sez2razel(s)) off by {np.linalg.norm(s2 - s):.2e}", w, mon="sez_roundtrip")
 
 
+def chk_composites(ctx, t, x, lat, lon):
+    """The one-call composites (inertial <-> geodetic, inertial <-> topocentric horizon) and the TEME entry point."""
+    from resonaate.physics.transforms.methods import eci2ecef, eci2lla, eci2sez, lla2eci, sez2eci, teme2ecef
+
+    w = _w("composites", t=t, x=x, lat=lat, lon=lon)
+    M = np.column_stack([eci2ecef(np.array([*e, 0, 0, 0.0]), t)[:3] for e in np.eye(3)])
+    r_ecef = M @ x[:3]
+    # inertial -> geodetic: the point at that height on that ellipsoid normal, taken back to the inertial frame, is the position
+    lla = eci2lla(x, t)
+    if np.all(np.isfinite(lla)):
+        p = g.ellipsoid_point(float(lla[0]), float(lla[1]), float(lla[2]))
+        tol = _lla_tol(r_ecef)
+        ctx.check(np.linalg.norm(p - r_ecef) <= tol, "eci2lla-ellipsoid", f"eci2lla result is {np.linalg.norm(p - r_ecef):.3e} km away from the ellipsoid-normal point of the rotated position", w, mon="composites")
+        back = lla2eci(lla, t)
+        ctx.check(np.linalg.norm(back[:3] - x[:3]) <= tol + 1e-9, "lla2eci-inverse", f"lla2eci(eci2lla(x)) off by {np.linalg.norm(back[:3] - x[:3]):.3e} km", w, mon="composites")
+        # a point fixed to the Earth moves with w x r in the inertial frame (w along the Earth-fixed pole, which precession and
+        # nutation tilt against the inertial z axis)
+        vexp = np.cross(M.T @ np.array([0, 0, g.OMEGA]), back[:3])
+        ctx.check(np.linalg.norm(back[3:] - vexp) <= 1e-9 * np.linalg.norm(back[:3]) + 1e-9, "lla2eci-velocity",  # polar motion <= 0.6 arcsec: 2.1e-10 |r|
+                  f"lla2eci velocity differs from w x r by {np.linalg.norm(back[3:] - vexp):.3e} km/s", w, mon="composites")
+    else:
+        ctx.check(False, "lla-finite", f"eci2lla returned {lla}", w, mon="composites")
+    # inertial <-> topocentric horizon of a site (x is a vector relative to the observer)
+    s = eci2sez(x, lat, lon, t)
+    B = g.sez_basis(lat, lon)
+    nr = max(1.0, np.linalg.norm(x[:3]))
+    ctx.check(np.linalg.norm(s[:3] - B @ r_ecef) <= 1e-10 * nr, "eci2sez-basis", f"eci2sez position differs from (S,E,Z basis) x (Earth-fixed vector) by {np.linalg.norm(s[:3] - B @ r_ecef):.3e} km", w, mon="composites")
+    ctx.check(abs(np.linalg.norm(s[:3]) - np.linalg.norm(x[:3])) <= 1e-10 * nr, "eci2sez-length", "eci2sez changes the vector's length", w, mon="composites")
+    xb = sez2eci(s, lat, lon, t)
+    ctx.check(np.linalg.norm(xb[:3] - x[:3]) <= 1e-10 * nr and np.linalg.norm(xb[3:] - x[3:]) <= 1e-10, "eci-sez-roundtrip", f"sez2eci(eci2sez(x)) differs by {np.linalg.norm(xb - x):.3e}", w, mon="composites")
+    # TEME (what SGP4 delivers) -> Earth fixed: a proper rotation, within the accumulated precession/nutation (< 0.6 deg in the
+    # table's span) of the inertial -> Earth-fixed rotation of the same instant
+    Mt = np.column_stack([teme2ecef(np.array([*e, 0, 0, 0.0]), t)[:3] for e in np.eye(3)])
+    ok = np.allclose(Mt @ Mt.T, np.eye(3), atol=1e-12) and abs(np.linalg.det(Mt) - 1) < 1e-12
+    xt = teme2ecef(x, t)
+    ok = ok and abs(np.linalg.norm(xt[:3]) - np.linalg.norm(x[:3])) <= 1e-10 * nr and np.linalg.norm(xt[:3] - Mt @ x[:3]) <= 1e-10 * nr
+    ctx.check(ok, "teme-rigid", "TEME->ECEF position map is not a proper rotation / changes length", w, mon="composites")
+    ang = math.acos(max(-1.0, min(1.0, (np.trace(Mt @ M.T) - 1) / 2)))
+    ctx.check(ang <= 0.02, "teme-near-inertial", f"TEME->ECEF and ECI->ECEF rotations of the same instant differ by {ang:.4e} rad (precession + nutation since J2000 is < 0.006 rad in the table's span)", w, mon="composites")
+    vexp = Mt @ x[3:] - np.cross([0, 0, g.OMEGA], Mt @ x[:3])
+    ctx.check(np.linalg.norm(xt[3:] - vexp) <= 1e-9 * np.linalg.norm(x[:3]) + 1e-9, "teme-velocity", f"TEME->ECEF velocity differs from M v - w x r by {np.linalg.norm(xt[3:] - vexp):.3e} km/s", w, mon="composites")
+
+
 def chk_razel_radec(ctx, t, obs, tgt):
     from resonaate.physics.transforms.methods import eci2radec, eci2razel, radec2razel, razel2radec
 
@@ -326,8 +369,11 @@ def run(ctx):
         t = _rand_date(rng, whole=rng.random() < 0.7)
         r, kind = _rand_pos(rng)
         x = np.concatenate([r, _rand_vel(rng)])
-        sel = i % 8
-        if sel == 0:
+        sel = i % 9
+        if sel == 8:
+            lat = rng.choice([rng.uniform(-math.pi / 2, math.pi / 2), math.pi / 2, -math.pi / 2, 0.0])
+            chk_composites(ctx, t, x, lat, rng.choice([rng.uniform(-math.pi, math.pi), math.pi, 0.0, rng.uniform(0, 2 * math.pi)]))
+        elif sel == 0:
             chk_eci_ecef(ctx, t, x)
         elif sel == 1:
             r2, _ = _rand_pos(rng)
@@ -363,7 +409,7 @@ def run(ctx):
             chk_doy(ctx, t)
         ctx.case((sel, t.isoformat(), tuple(np.round(x, 6))), sample=None)
         if i % 997 == 0:
-            ctx.sample({"relation": ["eci_ecef", "pair", "lla", "lla_fwd", "sez", "razel_radec", "rsw_ntw", "helpers+doy"][sel], "t": t.isoformat(), "r_km": [round(float(c), 3) for c in r]})
+            ctx.sample({"relation": ["eci_ecef", "pair", "lla", "lla_fwd", "sez", "razel_radec", "rsw_ntw", "helpers+doy", "composites"][sel], "t": t.isoformat(), "r_km": [round(float(c), 3) for c in r]})
     # rotation-rate continuity across every kind of boundary
     nb = ctx.scale(1200, 60_000)
     for t, kind in _boundaries(rng, nb):
@@ -458,6 +504,8 @@ def replay(ctx, w):
         chk_lla_fwd(ctx, w["lat"], w["lon"], w["alt"])
     elif k == "sez":
         chk_sez(ctx, w["lat"], w["lon"], A(w["x"]))
+    elif k == "composites":
+        chk_composites(ctx, T(w["t"]), A(w["x"]), w["lat"], w["lon"])
     elif k == "razel_radec":
         chk_razel_radec(ctx, T(w["t"]), A(w["obs"]), A(w["tgt"]))
     elif k == "rsw_ntw":
